@@ -6,6 +6,12 @@ import OdxVerif.Proofs.FieldTier
 namespace OdxVerif.Codec
 open OdxVerif.Bits OdxVerif.OdxM
 
+/-- `AllBytes` by evaluation -/
+theorem allBytes_of_all (bs : Bytes) (h : bs.all (fun b => decide (b < 256)) = true) : AllBytes bs := by
+  intro b hb
+  rw [List.all_eq_true] at h
+  exact of_decide_eq_true (h b hb)
+
 /-! ### a different decoder for the same encoder -/
 
 /-- same encoder, another decoder that agrees with the old one whenever the old one returns the encoded value on a
